@@ -11,6 +11,10 @@ LEVEL = "model_checking"
 def run(ck):
     q = ck.tier == "quick"
     ops = genhist.gen_ops()
+    import re
+    spec_kinds = re.findall(r'"([a-z_0-9]+)"', re.search(r"Kinds == <<(.*?)>>", open(os.path.join(vlib.VERIF, "spec", "History.tla")).read(), re.S).group(1))
+    if spec_kinds != [p["kind"] for p in ops]:
+        raise vlib.Broken("History!Kinds and lib/genhist.py disagree: %s vs %s" % (spec_kinds, [p["kind"] for p in ops]))
     d = vlib.workdir("hist")
     opsf = os.path.join(d, "ops.ndjson")
     gen.write(opsf, ops)
@@ -30,10 +34,11 @@ def run(ck):
     machine.run_family(ck, "history-ops-cancel", cancelled, with_signal=True)
     ck.cov["exhaustive"] = True
     ck.cov["rule"] = ("all histories up to length %d over a pool of %d operations (run ok, syntax error at EOF / mid-expression, lexical "
-                      "error, check failure, run failing inside nested loops with break/continue pending, run exiting inside a loop, run "
+                      "error, check failure, run failing inside nested loops with break/continue pending / inside an if body / in a loop condition "
+                      "(each after assigning top-level variables, some shadowing point keys), run exiting inside a loop, run "
                       "cancelled at poll 7, run through use() with exit in the callee, run erroring after a builtin filled the return "
                       "register, run renaming/dropping keys (recycling index entries), parse with a rejected operand, a v2 run, a second "
-                      "run reading keys earlier runs wrote) enumerated by TLC (pooled-object model: NoStaleRead); each history is executed "
+                      "run reading every name and key earlier runs assigned) enumerated by TLC (pooled-object model: NoStaleRead); each history is executed "
                       "in one process pinned to one P with GC off (deterministic sync.Pool reuse) with pooled points, and every "
                       "operation's canonical result must equal the result of the same operation performed first in a fresh process. "
                       "distinct = histories of length >= 2." % (maxlen, len(ops)))
